@@ -396,14 +396,18 @@ impl C04 {
                     }
                 };
                 check("objective", "objective", &opt_fn(&original.objective), &opt_fn(&inst.objective), sol.objective, mon);
-                for (co, ca) in original.constraints.iter().zip(inst.constraints.iter()) {
+                let (Some(act), Some(rem)) = (pair_by_id(&original.constraints, &inst.constraints), pair_removed_by_id(&original.removed_constraints, &inst.removed_constraints)) else {
+                    mon.violation("C04.instance-constraint-set-changed", format!("substitute changed the set of (removed) constraint ids\n{}", ctx(&inst)));
+                    return;
+                };
+                for (co, ca) in act {
                     if let Some(e) = sol.evaluated_constraints.iter().find(|e| e.id == co.id) {
                         check(&format!("constraint {}", co.id), "active", &opt_fn(&co.function), &opt_fn(&ca.function), e.evaluated_value, mon);
                     } else {
                         mon.violation("C04.instance-constraint-missing", format!("constraint {} not evaluated\n{}", co.id, ctx(&inst)));
                     }
                 }
-                for (ro, ra) in original.removed_constraints.iter().zip(inst.removed_constraints.iter()) {
+                for (ro, ra) in rem {
                     let (co, ca) = (ro.constraint.as_ref().unwrap(), ra.constraint.as_ref().unwrap());
                     if let Some(e) = sol.evaluated_constraints.iter().find(|e| e.id == co.id) {
                         check(&format!("removed constraint {}", co.id), "removed", &opt_fn(&co.function), &opt_fn(&ca.function), e.evaluated_value, mon);
